@@ -26,3 +26,44 @@ Proof. reflexivity. Qed.
 
 Lemma check_mark_neg1 : check_mark = (-1)%Z.
 Proof. reflexivity. Qed.
+
+(* padding package (C04/C05/C19) *)
+Lemma padding_size_bound_u16 : padding_size_bound = Some 65535%Z.
+Proof. reflexivity. Qed.
+
+Lemma pkt_index_offset_1 : pkt_index_offset = 1.
+Proof. reflexivity. Qed.
+
+Lemma client_pads_server_does_not : client_send_padding = true /\ server_send_padding = false.
+Proof. split; reflexivity. Qed.
+
+Lemma pkt_counters_start_at_0 : client_pkt_start = 0 /\ server_pkt_start = 0.
+Proof. split; reflexivity. Qed.
+
+Lemma settings_md5_keys_agree : client_settings_md5_key = server_settings_md5_key.
+Proof. reflexivity. Qed.
+
+(* ---- misc/cert (C18): shape of CertReloader::{new,reload} and the day arithmetic of cert_analyzer.rs ---- *)
+Lemma cert_reload_cert_reads_1 : cert_reload_cert_reads = 1 /\ cert_new_cert_reads = 1.
+Proof. split; reflexivity. Qed.
+
+Lemma cert_reload_key_reads_1 : cert_reload_key_reads = 1 /\ cert_new_key_reads = 1.
+Proof. split; reflexivity. Qed.
+
+Lemma cert_reload_commit_shape : cert_reload_commit_writes = 4 /\ cert_reload_commit_after_checks = true.
+Proof. split; reflexivity. Qed.
+
+Lemma cert_reload_expiry_exact : cert_reload_expiry_compares_not_after = true.
+Proof. reflexivity. Qed.
+
+Lemma cert_reload_expiry_days : cert_reload_expiry_uses_is_expired = true.
+Proof. reflexivity. Qed.
+
+Lemma cert_day_arith : cert_secs_per_day = 86400%Z /\ cert_expired_below_days = 0%Z.
+Proof. split; reflexivity. Qed.
+
+Lemma cert_check_expiry_on : cert_default_check_expiry = true /\ cert_bin_check_expiry = true.
+Proof. split; reflexivity. Qed.
+
+Lemma cert_new_accepts_expired : cert_new_rejects_expired = false.
+Proof. reflexivity. Qed.
